@@ -111,7 +111,13 @@ def run_one(engine, seed, acc, tier):
     if engine == 'shipped':
         from . import shipped_props
         return shipped_props.run_one(ID, seed, acc, tier)
-    case = gen.gen_case(seed)
+    r0 = core.Rng(core.h64('c01mix', seed))
+    if engine in ('synth', 'synth_cli') and r0.chance(0.3):
+        # fault mixes aimed at the clauses of the success test: lines that need each other, with something computed twice
+        case = gen.gen_case(seed, force_faults=r0.pick([['dup', 'cycle'], ['dup', 'selfref'], ['dup', 'cycle', 'notimpl'],
+                                                        ['cycle', 'selfref'], ['dup', 'missing'], ['dup', 'cycle', 'refuse']]))
+    else:
+        case = gen.gen_case(seed)
     if engine == 'synth_cli':
         case['cli'] = cli_script(case, seed)
     if engine == 'synth_reuse':
